@@ -33,6 +33,30 @@ fn adjust(s: &mut TypeSpec, d: &mut Dna) -> bool {
             }
         }
     }
+    // DerefMut educed alone, next to a Deref impl the user wrote by hand (single-field structs: the hand-written impl is then
+    // unambiguous without consulting the markers)
+    if s.kind == Kind::Struct && s.has(Tr::DerefMut) && s.variants[0].fields.len() == 1 && s.variants[0].fields[0].attrs.iter().all(|a| a.tr != Tr::Deref) && d.chance(30) {
+        let f = &s.variants[0].fields[0];
+        let mut target = f.ty.src.clone();
+        for _ in 0..f.ty.refs {
+            let t = target.trim_start_matches('&').trim_start();
+            let t = if t.starts_with('\'') { t.split_once(' ').map(|x| x.1).unwrap_or(t) } else { t };
+            target = t.trim_start_matches("mut ").to_string();
+        }
+        let access = match &f.name {
+            Some(n) => format!("self.{n}"),
+            None => "self.0".to_string(),
+        };
+        let imp = format!(
+            "impl{} ::core::ops::Deref for {}{} {{ type Target = {target}; fn deref(&self) -> &{target} {{ &{}{access} }} }}",
+            s.gens.impl_decl(),
+            s.self_ty(),
+            s.gens.where_clause(),
+            "*".repeat(f.ty.refs as usize)
+        );
+        s.extra_items.push(imp);
+        s.traits.retain(|a| a.tr != Tr::Deref);
+    }
     // the same target type under another spelling in a later variant: all variants must agree on the type, not on its tokens
     if s.kind == Kind::Enum && s.variants.len() >= 2 {
         for vi in 1..s.variants.len() {
@@ -161,6 +185,9 @@ pub fn render(s: &TypeSpec) -> Option<Rendered> {
     if s.all_fields().any(|f| f.ty.refs > 1) {
         classes.push("double_reference_field".to_string());
     }
+    if !s.has(Tr::Deref) {
+        classes.push("deref_mut_next_to_a_hand_written_deref".to_string());
+    }
     if s.all_fields().any(|f| f.ty.src.starts_with("::core::") || f.ty.src.starts_with("::std::")) {
         classes.push("target_type_spelled_differently_in_a_later_variant".to_string());
     }
@@ -175,7 +202,7 @@ pub fn behaviour() -> Behaviour {
     Behaviour {
         prop: "C09",
         rule: "structs and enums (no unit variants) with 1..5 fields per variant, independent Deref and DerefMut marker positions, named and tuple shapes, \
-               value and reference field types, several fields of the target type holding distinct values; oracle: &*x has the address of the designated \
+               value and reference field types, several fields of the target type holding distinct values, later variants spelling the target type with other tokens (`::core::primitive::u8`); oracle: &*x has the address of the designated \
                field (of its referent for a reference field), &mut *x the address of the field marked DerefMut, and a write through it changes that field's \
                fingerprint and no other; non-trivial = >=2 fields of the target type in a variant, a marker not on position 0, or different Deref/DerefMut fields",
         salt: 0xC09,
